@@ -142,6 +142,30 @@ def oracle_blocksz(ctx, n, sizes=None, sig_known=True):
                     sig = 'gate:blockzero>=8096-needs-2-messages-3-lines'
                 fails.append({'signature': sig, 'detail': f'--blocksz {bs}: rc={rc} vs {rc0}; ' + first_diff(out, out0),
                               'args': e2e.BASE_ARGS + ['--blocksz', str(bs), 'FILE'], 'file_hex': small_hex(log.data)})
+        # the same with colour on: the escape sequences around the timestamp are part of the printed output too, and the
+        # highlighting code walks the line's parts (one per block) on its own. Block sizes such that the END of a
+        # message's timestamp falls exactly on / next to a block boundary are added.
+        if out0 and not any(f['signature'].startswith('gate:') for f in fails[-len(bss):]):
+            colour = ['--color', 'always']
+            rcc, outc, _, _ = e2e.s4(['-t', '+00:00'] + colour + [p], timeout=120)
+            ev += 1
+            heads = [off for off, _, _ in log.msgs][1:6]
+            cbs = list(bss[:3])
+            for off in heads:
+                e_ = off + 19                      # exclusive end of 'YYYY-MM-DD HH:MM:SS'
+                for d_ in (e_, e_ - 1, e_ + 1):
+                    for div in (1, 2, 3):
+                        if d_ % div == 0 and d_ // div >= 64:
+                            cbs.append(d_ // div)
+            for bs in sorted(set(cbs))[:24]:
+                rc, out, err, _ = e2e.s4(['-t', '+00:00'] + colour + ['--blocksz', str(bs), p], timeout=120)
+                ev += 1
+                if (rc, out) != (rcc, outc):
+                    rcn, outn, _, _ = run_plain(p, ['--blocksz', str(bs)])
+                    if (rcn, outn) != (rc0, out0):
+                        continue                    # differs without colour as well: reported (or attributed to the gate) above
+                    fails.append({'signature': 'blocksz:coloured-stdout-differs-from-default', 'detail': f'--color always --blocksz {bs}: rc={rc} vs {rcc}; ' + first_diff(out, outc),
+                                  'args': ['-t', '+00:00'] + colour + ['--blocksz', str(bs), 'FILE'], 'file_hex': small_hex(log.data)})
         if len(samples) < 2:
             samples.append({'oracle': 'C12 blocksz', 'file_bytes': len(log.data), 'blocksizes': bss, 'stdout_bytes': len(out0)})
         os.unlink(p)
